@@ -829,3 +829,93 @@ class C34(Spec):
         p = case['prog']
         return {'seed': case['seed'], 'cfg': case['cfg'], 'fn': p['fn'], 'x': p['x'], 'y': p['y'], 'args': p['args'],
                 'type': p['type'], 'results': repr(res.results)[:200]}
+
+
+from .families import grpfam  # noqa: E402
+
+
+@_register
+class C28(Spec):
+    check_id = 'C28'
+    family = 'grp'
+    title = 'secure group operations match plain group operations'
+    quick = {'runs': 600, 'wall': 85}
+    thorough = {'runs': 100000, 'wall': 900}
+    per_run_timeout = 300
+
+    def make_case(self, seed, tier):
+        rng = random.Random(f'C28/{seed}')
+        cfg = sample_cfg(rng, tier, m_max=3 if tier == 'quick' else 5)
+        prog = grpfam.gen(rng, cfg, tier, kf=(seed % 10 == 7))
+        return {'family': 'grp', 'cfg': cfg.to_json(), 'prog': prog, 'seed': seed, 'opts': {'step_cap': 3000000}}
+
+    def sample(self, case, res):
+        return {'seed': case['seed'], 'cfg': case['cfg'], 'prog': case['prog'], 'results': repr(res.results)[:200]}
+
+
+# ------------------------------------------------------------------ fixed cases for known findings
+
+def _cfgj(m, t, **kw):
+    from .world import Config
+    return Config(m=m, t=t, **kw).to_json()
+
+
+def _kf_c04(self, tier):
+    return [{'family': 'fld', 'cfg': _cfgj(5, 1),
+             'prog': {'family': 'fld', 'type': {'p': 5, 'd': 1, 'how': 'order'},
+                      'stmts': [['input', ['v1'], [], {'sender': 1, 'value': 2, 'dummy': 1}], ['to_bits', ['v2'], ['v1'], {}]],
+                      'outputs': ['v1']}}]
+
+
+_FXP_INTEGRALITY = {'family': 'fxp', 'cfg': _cfgj(3, 1),
+                    'prog': {'family': 'fxp', 'type': {'l': 16, 'f': 8},
+                             'stmts': [['input_all', ['v1'], [], {'values': [[3, 2], [2, 1], [3, 4]]}],
+                                       ['getitem', ['v2'], ['v1'], {'i': 0}], ['getitem', ['v3'], ['v1'], {'i': 2}],
+                                       ['mul', ['v4'], ['v2', 'v3'], {}]],
+                             'outputs': ['v4'], 'tags': ['mixed_integrality_inputs']}}
+
+
+def _kf_c02(self, tier):
+    return [
+        {'family': 'fxp', 'cfg': _cfgj(1, 0),
+         'prog': {'family': 'fxp', 'type': {'l': 40, 'f': 16},
+                  'stmts': [['input', ['v1'], [], {'sender': 0, 'value': [3, 2], 'dummy': [5, 2]}],
+                            ['div', ['v2'], ['v1', 'v1'], {}]], 'outputs': ['v2'], 'tags': []}},
+        {'family': 'fxp', 'cfg': _cfgj(1, 0),
+         'prog': {'family': 'fxp', 'type': {'l': 24, 'f': 12, 'kf': ['small_divisor']},
+                  'stmts': [['input', ['v1'], [], {'sender': 0, 'value': [3, 4096], 'dummy': [1, 4096]}],
+                            ['rdivc', ['v2'], ['v1'], {'c': 0.5}]], 'outputs': ['v2'], 'tags': ['small_divisor']}},
+        _FXP_INTEGRALITY,
+    ]
+
+
+def _kf_c03(self, tier):
+    return [_FXP_INTEGRALITY]
+
+
+def _kf_c28(self, tier):
+    return [
+        {'family': 'grp', 'cfg': _cfgj(3, 1),
+         'prog': {'family': 'grp', 'group': {'kind': 'Sn', 'n': 3},
+                  'stmts': [['input', 'g1', [], {'perm': [2, 1, 0], 'sender': 1, 'dummy': {'perm': [1, 2, 0]}}],
+                            ['inverse', 'g2', ['g1'], {}]], 'outputs': ['g2'], 'tags': ['sn_over_lifted_field']}},
+        {'family': 'grp', 'cfg': _cfgj(3, 1), 'rand_seed': 1,
+         'prog': {'family': 'grp', 'group': {'kind': 'QR', 'p': 23, 'order': 11},
+                  'stmts': [['elt', 'g1', [], {'pow': 1, 'secure': False}],
+                            ['repeat', 'g2', ['g1'], {'x': 7, 'exp': 'int', 'form': 'repeat', 'xin': 0}]],
+                  'outputs': ['g2'], 'tags': ['pubbase_secint_exp']}},
+    ]
+
+
+def _kf_c34(self, tier):
+    return [{'family': 'stat', 'cfg': _cfgj(1, 0),
+             'prog': {'family': 'stat', 'type': {'kind': 'fxp', 'l': 32, 'f': 16}, 'fn': 'mode',
+                      'x': [[3, 1], [2, 1], [2, 1], [3, 1]], 'dx': [[1, 1]] * 4, 'y': None, 'dy': None, 'args': {}, 'sender': 0,
+                      'tags': ['mode_tie']}}]
+
+
+C04.kf_cases = _kf_c04
+C02.kf_cases = _kf_c02
+C03.kf_cases = _kf_c03
+C28.kf_cases = _kf_c28
+C34.kf_cases = _kf_c34
